@@ -907,7 +907,7 @@ func c08Run(r *mon.Run) {
 		"the symmetry law is checked on x for which 1-x is exactly representable; elsewhere fl(1-x) is a different argument",
 		"monotonicity is checked with a slack for rounding noise of 16*2^-52*M clamped to [1e-12,1e-10], M = sum of magnitudes of the log-space terms of the prefactor (<= 2.1e-11 at a=b=300)",
 		"Lchoose tolerance 1e-10*max(1,|ln C|)")
-	r.Gate("beta-switch-below", "beta-switch-above", "beta-small-param", "beta-large-param",
+	r.Gate("beta-near-gamma-overflow", "beta-switch-below", "beta-switch-above", "beta-small-param", "beta-large-param",
 		"beta-x=0", "beta-x=1", "beta-x-outside", "beta-x-just-outside", "beta-monotone-across-switch",
 		"gamma-switch-below", "gamma-switch-above", "gamma-small-a", "gamma-large-a", "gamma-cf-large-a", "gamma-series-large-a",
 		"gamma-monotone-across-switch", "gamma-a<=0", "gamma-a=0", "gamma-x<0", "gamma-a-NaN", "gamma-x-NaN", "gamma-x-huge",
@@ -1020,6 +1020,22 @@ func c08Run(r *mon.Run) {
 	// --- Beta
 	r.Parallel("beta", r.Pick(8_000, 100_000), func(w *mon.W, i int) {
 		a, b := c08GenAB(w.Rng)
+		if i%8 == 3 {
+			// around the overflow threshold of the float64 gamma function
+			// (Gamma(x) = +Inf from x ~ 171.62; Gamma(a)*Gamma(b) overflows
+			// earlier): the switch-over points of any implementation that
+			// mixes direct and logarithmic evaluation
+			rng := w.Rng
+			b = rng.Pick(rng.Uniform(169, 174), rng.Uniform(171.0, 171.7), rng.Uniform(140, 172))
+			a = rng.Pick(rng.LogUniform(0.05, 2), rng.LogUniform(0.05, 0.3), 171.62-b+rng.Uniform(-0.3, 0.3), rng.Uniform(1, 40))
+			if a < c08Lo {
+				a = c08Lo
+			}
+			if rng.Bool() {
+				a, b = b, a
+			}
+			w.Hit("beta-near-gamma-overflow")
+		}
 		c08JudgeBeta(w, c08Case{Op: "beta", A: mon.F(a), B: mon.F(b)})
 	})
 
